@@ -10,10 +10,12 @@ def main(tier):
     c.build('asan', ['c11'])
     c.run_family('asan', 'c11', 'foreign-eq', args=args, chunk=1, per_case_timeout=30)
     c.run_family('asan', 'c11', 'resets-api', args=args, chunk=2, per_case_timeout=30)
+    c.run_family('asan', 'c11', 'imports-api', args=args, chunk=1, per_case_timeout=30)
     c.run_family('asan', 'c11', 'clone-api', args=args, chunk=6 if quick else 16, per_case_timeout=30)
     # the parser costs 1.6 ms per document under ASan and every single mutation needs a fresh parse: the mutation phase of the parsed
     # origin runs on the plain build (value oracle); thorough additionally runs the before-mutation oracle of the parsed origin under ASan
     c.build('plain', ['c11'])
+    c.run_family('plain', 'c11', 'imports-parsed', args=args, chunk=1, per_case_timeout=30)
     c.run_family('plain', 'c11', 'clone-parsed', args=args, chunk=6 if quick else 16, per_case_timeout=30)
     if not quick:
         c.run_family('asan', 'c11', 'clone-parsed-pre', args=args, chunk=32, per_case_timeout=10)
@@ -31,6 +33,9 @@ def main(tier):
             'the original\'s model; the resolving model an import source points to is outside both graphs and not counted',
             'causal attribution: a field class already reported on its own (reset order presence, encapsulation id, mapping/connection id) is repaired on the '
             'clone from outside before content/printed form/equals are compared, so any OTHER difference is still reported',
+            'import sharing (families imports-*: imported component I with an imported component J as child / as child of a local child / as sibling, with or without '
+            'imported units, every partition of these entities into shared ImportSource objects): besides the printed forms, the sharing PARTITION of the import sources in '
+            'traversal order must be the same in original and clone (checked for every component and model clone of every family)',
             'foreign-eq (a variable equivalent to a variable outside the model) is a carve-out of the semantic oracle: judged only for no crash, original '
             'untouched, and the clone\'s equivalences among its own variables equal to the original\'s',
             'reset links (family resets-api: variable and test_variable each in {own, sibling, child, no component, null}): strict = presence and name of both '
